@@ -37,7 +37,7 @@
 EXTENDS EnvKit
 
 CONSTANT Cfg   \* [num_rows, num_cols, n_boxes, time_limit, reward \in {"dense", "sparse"},
-               \*  generator \in {"toy", "simple", "levels"}]
+               \*  generator \in {"toy", "simple", "levels", "single"}]   ("single": one hand-written level)
 
 NR == Cfg.num_rows
 NC == Cfg.num_cols
